@@ -40,6 +40,19 @@ def _extract(wd):
     return extract_play.emit(wd, specs)
 
 
+def replay(g, obligation, wit, workroot):
+    """Library replay: the call is made with the counterexample's argument bytes on a real instance (ASan/UBSan build)."""
+    from vlib import libreplay
+    def num(k):
+        v = wit.get(k)
+        return int(str(v).rstrip("ul")) if v is not None else 0
+    fn = g.name.replace("rt_", "").replace("noteon_args_contract", "realTime_NoteOn")
+    args = [fn, num("in_channel"), num("in_a") if fn != "realTime_NoteOn" else num("in_note"), num("in_b") if fn != "realTime_NoteOn" else num("in_velocity"), num("in_w")]
+    r = libreplay.run_driver(workroot, "replay/rt_driver.cpp", args)
+    rep = (r["rc"] not in (0, 2, None)) and ("AddressSanitizer" in r["stderr"] or "runtime error" in r["stderr"] or "REPLAY-VIOLATION" in r["stdout"])
+    return dict(reproduced=bool(rep), driver="replay/rt_driver.cpp", args=args, output=r["stdout"][-400:], stderr=r["stderr"][-1200:])
+
+
 def groups(tier):
     gs = []
     REPL = ["noteUpdateAll", "updatePortamento", "setRPN", "noteOff", "killSustainingNotes", "markSostenutoNotes", "MIDIchannel_resetAllControllers121"]
